@@ -24,8 +24,15 @@ from harness.core import fl, zl, nl, bl, ql, ll, pl, optl, FLOAT_AXIOMS
 PROP = "C08"
 THEOREMS = {"Artap.Props.C08": [
     "C08_clip_in_box", "C08_pm_in_box", "C08_uniform_in_box", "C08_nonuniform_in_box", "C08_sbx_in_box",
-    "C08_position_in_box", "C08_run_in_box_partial", "C08_gen_number_in_box", "C08_gen_vector_in_box",
-    "C08_float_clip_in_box", "C08_float_sbx_in_box"]}
+    "C08_mutation_in_box_outer", "C08_sbx_in_box_outer", "C08_position_in_box",
+    "C08_two_level_in_box", "C08_three_level_in_box",
+    "C08_step_in_box_nsga2", "C08_step_in_box_epsmoea", "C08_step_in_box_omopso", "C08_step_in_box_smpso", "C08_step_in_box_psoga",
+    "C08_run_in_box_nsga2", "C08_run_in_box_epsmoea", "C08_run_in_box_omopso", "C08_run_in_box_smpso", "C08_run_in_box_psoga",
+    "C08_gen_number_in_box", "C08_gen_vector_in_box", "C08_scaled_design_in_box", "C08_uniform_grid_in_box",
+    "C08_three_level_mid_in_box",
+    "C08_run_nsga2_designs_in_box", "C08_run_epsmoea_designs_in_box", "C08_run_omopso_designs_in_box",
+    "C08_run_smpso_designs_in_box", "C08_run_psoga_designs_in_box",
+    "C08_float_clip_in_box", "C08_float_sbx_in_box", "C08_float_run_in_box_nsga2", "C08_float_run_in_box_psoga"]}
 AXIOMS_OK = FLOAT_AXIOMS
 TRUSTED = [
     "Coq 8.16.1 kernel, vm_compute for model evaluation (no native_compute)",
@@ -248,9 +255,11 @@ def make_params(box, precisions=None):
 
 # --------------------------------------------------------------------------------------------------------------
 def run(ctx):
+    import os
     import artap.operators as ops
     import artap.utils as utils
     rng = ctx.rng
+    t_start = os.times()
     hist = {"op": {}, "dims": {}, "varied_coords": 0, "kept_coords": 0, "pre_outside_box": 0, "child_on_bound": 0,
             "index_error_cases": 0, "sbx_skipped_by_probability": 0, "sbx_coincident_coords": 0,
             "skipped_nan_tape": 0, "skipped_pm_zero_width": 0, "long_parent": 0,
@@ -693,7 +702,12 @@ def run(ctx):
     rhist = {"runs": {}, "evaluated_vectors": 0, "failed_evaluations": 0, "coordinates_on_a_bound": 0, "generation_steps": 0,
              "breed_passes": 0, "runs_aborted_by_complex_power": 0, "runs_skipped_nan": 0}
     run_level(ctx, rhist)
-    ctx.extra.update({"run_histogram": rhist})
+    dhist = {"designs": {}, "coordinates": 0}
+    doe_level(ctx, dhist)
+    ctx.extra.update({"run_histogram": rhist, "doe_histogram": dhist})
+    t_end = os.times()
+    ctx.extra["cpu_s"] = {"python_user_sys": round(t_end.user - t_start.user + t_end.system - t_start.system, 1),
+                          "coqc_children_user_sys": round(t_end.children_user - t_start.children_user + t_end.children_system - t_start.children_system, 1)}
     ctx.extra.update({"operator_histogram": hist, "generator_histogram": ghist,
                       "near_boundary": ghist["near_tie_coordinates"]})
 
@@ -1167,6 +1181,175 @@ def run_level(ctx, rhist):
         one_run(name, RUN_BOXES[0], 1, 2, 0.0, None, correspond=False)       # population of one: direct oracle only
     ctx.coq_compare("c08_run", HEADER, "run_case", "run_obs", "c08_run_run", "run_obs_eqb", cases, expected, meta,
                     shard=ctx.pick(8, 16))
+
+
+
+# --------------------------------------------------------------------------------------------------------------
+# design-of-experiment generators
+# --------------------------------------------------------------------------------------------------------------
+def doe_level(ctx, dhist):
+    import artap.operators as ops
+    import artap.doe as doe
+    rng = ctx.rng
+    lcases, lexp, lmeta = [], [], []
+    scases, sexp, smeta = [], [], []
+    cap = {}
+    o_cdf, o_rand, o_lhs = doe.construct_df, doe.construct_df_from_random_matrix, doe.lhs
+
+    def cdf(x, factor_lists):
+        cap["x"] = [[int(v) for v in row] for row in x]
+        cap["exact"] = all(float(v) == int(v) for row in x for v in row)
+        return o_cdf(x, factor_lists)
+
+    def crand(x, factor_lists):
+        cap["w"] = [[float(v) for v in row] for row in x]
+        return o_rand(x, factor_lists)
+
+    def oracle_rows(kind, box, rows, inp):
+        ok = True
+        for r, row in enumerate(rows):
+            if len(row) != len(box):
+                ctx.oracle_failures.append({"what": "%s: design %d has dimension %d, %d parameters" % (kind, r, len(row), len(box)),
+                                            "input": inp, "match": {"kind": "dimension", "op": kind}})
+                return False
+            for i, (lb, ub) in enumerate(box):
+                why = outside(row[i], lb, ub)
+                dhist["coordinates"] += 1
+                if why:
+                    ok = False
+                    if len(ctx.oracle_failures) < 40:
+                        ctx.oracle_failures.append({"what": "%s: coordinate %d of design %d = %r is %s (box [%r, %r])" % (kind, i, r, row[i], why, lb, ub),
+                                                    "input": inp, "observed": [float(v) for v in row], "required": "lb <= x <= ub (up to 1e-12)",
+                                                    "match": {"kind": "out_of_box", "op": kind}})
+                    break
+        return ok
+
+    def level_case(kind, box):
+        params = make_params(box)
+        if kind == "ff2":
+            g = ops.FullFactorGenerator(params)
+            g.init(False)
+        elif kind == "ff3":
+            g = ops.FullFactorGenerator(params)
+            g.init(True)
+        elif kind == "pb":
+            g = ops.PlackettBurmanGenerator(params)
+        else:
+            g = ops.BoxBehnkenGenerator(params)
+        inp = {"generator": type(g).__name__, "center": kind == "ff3", "box": [list(b) for b in box]}
+        cap.clear()
+        try:
+            rows = g.generate()
+        except Exception as e:
+            ctx.mismatches.append({"what": "%s raised %r" % (type(g).__name__, e), "case": inp})
+            return
+        dhist["designs"][kind] = dhist["designs"].get(kind, 0) + len(rows)
+        ctx.count(("doe", kind, tuple(box)), nontrivial=len(box) > 1)
+        if not oracle_rows(type(g).__name__, box, rows, inp):
+            return
+        if "x" not in cap or not cap["exact"] or any(v < 0 for row in cap["x"] for v in row):
+            ctx.mismatches.append({"what": "%s: the design matrix is not a matrix of level indices" % type(g).__name__, "case": inp})
+            return
+        if any(bad_number(v) for row in rows for v in row):
+            return
+        lcases.append("{| l_three := %s; l_params := %s; l_x := %s |}" % (bl(kind in ("ff3", "bb")), enc_params(box),
+                                                                          ll(cap["x"], lambda r: ll(r, nl))))
+        lexp.append("(Some %s)" % enc_vecs([[float(v) for v in row] for row in rows]))
+        lmeta.append(dict(inp, designs=len(rows)))
+
+    def scaled_case(kind, box, number):
+        params = make_params(box)
+        g = ops.LHSGenerator(params) if kind == "lhs" else ops.HaltonGenerator(params)
+        g.init(number)
+        seed = rng.getrandbits(31)
+        doe.lhs = lambda n, samples=None, **kw: o_lhs(n, samples=samples, random_state=seed)
+        inp = {"generator": type(g).__name__, "number": number, "box": [list(b) for b in box], "numpy_seed": seed}
+        cap.clear()
+        try:
+            rows = g.generate()
+        except Exception as e:
+            ctx.mismatches.append({"what": "%s raised %r" % (type(g).__name__, e), "case": inp})
+            return
+        dhist["designs"][kind] = dhist["designs"].get(kind, 0) + len(rows)
+        ctx.count(("doe", kind, tuple(box), number, seed), nontrivial=True)
+        if not oracle_rows(type(g).__name__, box, rows, inp):
+            return
+        w = cap.get("w")
+        if w is None or len(w) != len(rows) or any(not (0.0 <= v <= 1.0) for row in w for v in row):
+            ctx.mismatches.append({"what": "%s: the design matrix does not lie in the unit cube" % type(g).__name__, "case": inp})
+            return
+        for wr, row in zip(w, rows):
+            scases.append("{| d_grid := None; d_params := %s; d_w := %s; d_idx := []; d_impl := %s; d_tol := %s |}" % (
+                ll(box, lambda b: pl(ql(b[0]), ql(b[1]))), ll(wr, ql), ll([float(v) for v in row], ql),
+                ll([4 * Fraction(ulp_of(lb, ub)) for lb, ub in box], ql)))
+            sexp.append("0%nat")
+            smeta.append(dict(inp, unit_row=wr, design=[float(v) for v in row]))
+
+    def grid_case(box, number):
+        params = make_params(box)
+        g = ops.UniformGenerator(params)
+        g.init(number)
+        inp = {"generator": "UniformGenerator", "number": number, "box": [list(b) for b in box]}
+        try:
+            rows = g.generate()
+        except Exception as e:
+            ctx.mismatches.append({"what": "UniformGenerator raised %r" % (e,), "case": inp})
+            return
+        dhist["designs"]["grid"] = dhist["designs"].get("grid", 0) + len(rows)
+        ctx.count(("doe", "grid", tuple(box), number), nontrivial=True)
+        if not oracle_rows("UniformGenerator", box, rows, inp):
+            return
+        d = len(box)
+        if len(rows) != number ** d:
+            ctx.mismatches.append({"what": "UniformGenerator returned %d designs, expected %d" % (len(rows), number ** d), "case": inp})
+            return
+        for r, row in enumerate(rows):
+            idx = [(r // number ** (d - 1 - j)) % number for j in range(d)]
+            scases.append("{| d_grid := Some %s; d_params := %s; d_w := []; d_idx := %s; d_impl := %s; d_tol := %s |}" % (
+                nl(number), ll(box, lambda b: pl(ql(b[0]), ql(b[1]))), ll(idx, nl), ll([float(v) for v in row], ql),
+                ll([4 * Fraction(ulp_of(lb, ub)) for lb, ub in box], ql)))
+            sexp.append("0%nat")
+            smeta.append(dict(inp, level_indices=idx, design=[float(v) for v in row]))
+
+    def doe_box(d, zero_width=True):
+        box = []
+        for _ in range(d):
+            b = gen_box(rng, allow_zero_width=zero_width)
+            box.append(b)
+        return box
+
+    doe.construct_df = cdf
+    doe.construct_df_from_random_matrix = crand
+    try:
+        level_case("ff3", [(0.0, 1.0), (-5, 5)])
+        level_case("bb", [(0.0, 1.0), (-7.5, -2.25), (1e6, 1e12)])
+        level_case("pb", [(0.0, 1e-12), (-1e300, 1e300), (2.0, 2.0)])
+        scaled_case("halton", [(0.0, 1.0), (-7.5, -2.25)], 6)
+        scaled_case("lhs", [(1e15, 1e15 + 4.0), (0.0, 1e-12)], 3)
+        grid_case([(0.0, 1.0), (-5, 5)], 3)
+        for _ in range(ctx.pick(60, 1500)):
+            k = rng.random()
+            if k < 0.15:
+                level_case("ff2", doe_box(rng.choice([1, 2, 3, 4, 5])))
+            elif k < 0.3:
+                level_case("ff3", doe_box(rng.choice([1, 2, 3, 4])))
+            elif k < 0.45:
+                level_case("pb", doe_box(rng.choice([1, 2, 3, 4, 5, 7, 8, 11])))
+            elif k < 0.55:
+                level_case("bb", doe_box(rng.choice([3, 3, 4, 5])))
+            elif k < 0.7:
+                scaled_case("lhs", doe_box(rng.choice([1, 2, 3, 4])), rng.choice([1, 2, 3, 5, 8]))
+            elif k < 0.85:
+                scaled_case("halton", doe_box(rng.choice([1, 2, 3, 4])), rng.choice([1, 2, 3, 5, 10]))
+            else:
+                grid_case(doe_box(rng.choice([1, 2, 3]), zero_width=True), rng.choice([2, 3, 4, 5]))
+    finally:
+        doe.construct_df = o_cdf
+        doe.construct_df_from_random_matrix = o_rand
+        doe.lhs = o_lhs
+    ctx.coq_compare("c08_lvl", HEADER, "lvl_case", "option (list (list float))", "c08_lvl_run", "lvl_obs_eqb", lcases, lexp, lmeta,
+                    shard=ctx.pick(40, 200))
+    ctx.coq_compare("c08_sc", HEADER, "sc_case", "nat", "c08_sc_run", "Nat.eqb", scases, sexp, smeta, shard=ctx.pick(300, 1500))
 
 
 LEVEL_TEXT = ("Machine-checked Coq theorems over a model of Operator.clip, the three mutators, SBX, the swarm position update and "
